@@ -22,6 +22,9 @@ ASSUMPTIONS = [
     "exactly",
     "values of the two framing edge entries are not asserted (the statement only says "
     "they frame the profile)",
+    "float domain: the oracle is exact on the double values; a case with a pair whose |dt| "
+    "lies within 1e-9 (relative to the time scale) of its window is counted ambiguous and "
+    "not judged (the float code may legitimately round across the tie)",
 ]
 
 
@@ -34,6 +37,34 @@ def _dyadic(draw, tier):
     c["compiled"] = draw(st.booleans())
     c["domain"] = "dyadic"
     return c
+
+
+@st.composite
+def _float(draw, tier):
+    """arbitrary (non-grid) doubles: decisions are judged only when the exact
+    margin between |dt| and tau is far above rounding (else counted ambiguous)"""
+    c = draw(gen.float_train_lists(2, 2, max_spikes=8 if tier == "quick" else 16))
+    ln = c["t1"] - c["t0"]
+    c["mrts"] = draw(gen.float_mrts(ln))
+    c["max_tau"] = draw(st.one_of(st.none(), st.just(0.0),
+                                  st.integers(1, 1 << 20).map(lambda k: ln * k / (1 << 20))))
+    c["compiled"] = draw(st.booleans())
+    c["domain"] = "float"
+    return c
+
+
+def _ambiguous(case):
+    """a pair whose |dt| is within rounding distance of its window"""
+    (a, b), T0, T1 = ps.fr_trains(case)
+    m, mt = _settings(case)
+    scale = max(abs(float(T0)), abs(float(T1)), 1.0)
+    for i in range(len(a)):
+        for j in range(len(b)):
+            tau = O.window(a, i, b, j, T0, T1, m, mt)
+            d = abs(a[i] - b[j])
+            if abs(float(d) - float(tau)) <= 1e-9 * scale and d != 0:
+                return True
+    return False
 
 
 def _enum(tier, shard, nshards):
@@ -52,6 +83,7 @@ def _enum(tier, shard, nshards):
 
 PHASES = [
     HypPhase("dyadic", _dyadic, dict(quick=10000, thorough=60000)),
+    HypPhase("float", _float, dict(quick=1500, thorough=20000)),
     EnumPhase("grid7", _enum,
               lambda tier: "all ordered pairs of subsets of {0..7} on [0,7] x MRTS in "
                            "{0,1,2,3,4,14} x max_tau in {None,0.5,1,2}, backend "
@@ -77,6 +109,7 @@ def classify(case):
     a, b, T0, T1, m, mt, pairs, ties = _facts(case)
     labels = sorted(ps.train_kinds(case))
     labels.append("compiled" if case["compiled"] else "fallback")
+    labels.append("domain:" + case.get("domain", "dyadic"))
     if ties:
         labels.append("exact_tie_dt_eq_tau")
     if pairs:
@@ -114,6 +147,9 @@ def single_impl(ctx, compiled):
 def run_case(case, ctx):
     import numpy as np
     import pyspike
+    if case.get("domain") == "float" and _ambiguous(case):
+        ctx.notes["float_case_within_rounding_of_a_tie_not_judged"] += 1
+        return
     ctx.set_backend(case["compiled"])
     st1, st2 = ps.trains(case)
     a, b, T0, T1, m, mt, pairs, ties = _facts(case)
